@@ -169,7 +169,13 @@ static J read_attr(Ctx& c, CK_SESSION_HANDLE hs, CK_OBJECT_HANDLE ho, CK_ATTRIBU
         Buf b; b.alloc(at.ulValueLen); at.pValue = b.p;
         CK_ULONG qlen = at.ulValueLen;
         CALL(c.P->fl->C_GetAttributeValue(hs, ho, &at, 1));
-        if (rv == CKR_BUFFER_TOO_SMALL && attempt < 3 && at.ulValueLen != CK_UNAVAILABLE_INFORMATION && at.ulValueLen > qlen) continue;   // the value grew between the size query and the fetch (another party wrote it)
+        if (rv == CKR_BUFFER_TOO_SMALL && attempt < 4) {
+            // the value grew between the size query and the fetch (another party wrote it): ask for the size again
+            at.pValue = nullptr; at.ulValueLen = 0;
+            CALL(c.P->fl->C_GetAttributeValue(hs, ho, &at, 1));
+            if (rv == CKR_OK && at.ulValueLen != CK_UNAVAILABLE_INFORMATION) continue;
+            J e = J::obj(); e.set("rv", (long)rv); e.set("phase", 4); return e;
+        }
         if (rv != CKR_OK) { J e = J::obj(); e.set("rv", (long)rv); e.set("phase", 2); return e; }
         J e = J::obj(); e.set("v", tohex(b.p, std::min<size_t>(at.ulValueLen, b.cap)));
         if (at.ulValueLen != qlen) e.set("qlen", (long)qlen);
